@@ -584,8 +584,15 @@ def _upgrade_policies(policies, default_policies):
                 # A deprecated policy may have been split into several new
                 # ones, so its old value can be needed more than once.
                 policies.pop(rule_default.deprecated_rule.name, None)
-                policies[rule_default.name] = old_policies[
-                    rule_default.deprecated_rule.name]
+                old_value = old_policies[rule_default.deprecated_rule.name]
+                if (rule_default.deprecated_rule.name != rule_default.name and
+                        str(policy.RuleDefault('x', old_value).check) ==
+                        'rule:%s' % rule_default.name):
+                    # The old name was merely an alias of this new policy
+                    # (which is how Enforcer treats it); renaming it would
+                    # make the new policy refer to itself.
+                    continue
+                policies[rule_default.name] = old_value
                 LOG.info('The name of policy %(old_name)s has been upgraded to'
                          '%(new_name)',
                          {'old_name': rule_default.deprecated_rule.name,
